@@ -371,7 +371,7 @@ spif_str_append(spif_str_t self, spif_str_t other)
     ASSERT_RVAL(!SPIF_STR_ISNULL(self), FALSE);
     REQUIRE_RVAL(!SPIF_STR_ISNULL(other), FALSE);
     if (other->size && other->len) {
-        self->size += other->size - 1;
+        self->size += other->size - ((self->size) ? (1) : (0));
         self->s = (spif_charptr_t) REALLOC(self->s, self->size);
         memcpy(self->s + self->len, SPIF_STR_STR(other), other->len + 1);
         self->len += other->len;
@@ -385,7 +385,7 @@ spif_str_append_char(spif_str_t self, spif_char_t c)
     ASSERT_RVAL(!SPIF_STR_ISNULL(self), FALSE);
     self->len++;
     if (self->size <= self->len) {
-        self->size++;
+        self->size = self->len + 1;
         self->s = (spif_charptr_t) REALLOC(self->s, self->size);
     }
     self->s[self->len - 1] = c;
@@ -402,7 +402,7 @@ spif_str_append_from_ptr(spif_str_t self, spif_charptr_t other)
     REQUIRE_RVAL((other != (spif_charptr_t) NULL), FALSE);
     len = strlen((const char *) other);
     if (len) {
-        self->size += len;
+        self->size += len + ((self->size) ? (0) : (1));
         self->s = (spif_charptr_t) REALLOC(self->s, self->size);
         memcpy(self->s + self->len, other, len + 1);
         self->len += len;
@@ -562,6 +562,9 @@ spif_str_prepend(spif_str_t self, spif_str_t other)
 {
     ASSERT_RVAL(!SPIF_STR_ISNULL(self), FALSE);
     REQUIRE_RVAL(!SPIF_STR_ISNULL(other), FALSE);
+    if (!self->size) {
+        return spif_str_append(self, other);
+    }
     if (other->size && other->len) {
         self->size += other->size - 1;
         self->s = (spif_charptr_t) REALLOC(self->s, self->size);
@@ -576,12 +579,15 @@ spif_bool_t
 spif_str_prepend_char(spif_str_t self, spif_char_t c)
 {
     ASSERT_RVAL(!SPIF_STR_ISNULL(self), FALSE);
+    if (!self->size) {
+        return spif_str_append_char(self, c);
+    }
     self->len++;
     if (self->size <= self->len) {
-        self->size++;
+        self->size = self->len + 1;
         self->s = (spif_charptr_t) REALLOC(self->s, self->size);
     }
-    memmove(self->s + 1, self->s, self->len + 1);
+    memmove(self->s + 1, self->s, self->len);
     self->s[0] = (spif_uchar_t) c;
     return TRUE;
 }
@@ -594,6 +600,9 @@ spif_str_prepend_from_ptr(spif_str_t self, spif_charptr_t other)
     ASSERT_RVAL(!SPIF_STR_ISNULL(self), FALSE);
     REQUIRE_RVAL((other != (spif_charptr_t) NULL), FALSE);
     len = strlen((const char *) other);
+    if (!self->size) {
+        return spif_str_append_from_ptr(self, other);
+    }
     if (len) {
         self->size += len;
         self->s = (spif_charptr_t) REALLOC(self->s, self->size);
